@@ -18,6 +18,15 @@ KCase(id) == KT[id]
 Near(a, b, d) == LLE(a, LAdd(b, d)) /\ LLE(b, LAdd(a, d))
 KOK(cnt, a, c) == Near(cnt, a.P, c.B)
 
+\* every reachable f32 output lies in the support (all 2^24 draws): finite, and inside the documented interval
+\* (Triangular: up to 4 ordinals beyond the bounds, as C03 states)
+SupOK(e) == /\ e.res = "Ok" /\ e.nan = 0 /\ e.pinf = 0 /\ e.ninf = 0 /\ e.hasfin
+            /\ CASE e.fam = "Pareto"     -> LLE(e.po[1], e.min)
+                 [] e.fam = "Weibull"    -> LLE(FZero, e.min)
+                 [] e.fam = "Frechet"    -> LLE(e.po[1], e.min)
+                 [] e.fam = "Triangular" -> LLE(e.po[1], LAdd(e.min, <<0, 0, 4>>)) /\ LLE(e.max, LAdd(e.po[2], <<0, 0, 4>>))
+                 [] OTHER -> TRUE
+
 One == <<4194304, 0, 0>>    \* 2^64
 KTableOK == \A c \in 1..Len(KT) :
                LET A == KT[c].anchors IN
